@@ -314,6 +314,27 @@ fn trial_ladder(job: &Job, stream_seed: u64, max_n: u64) -> Result<Vec<(u64, Rea
                                 a.est, a.lb, a.ub, b.est, b.lb, b.ub
                             );
                         }
+                        // the same state as Java / C++ writers of older serial versions would emit it (the crate
+                        // writes only versions 3 and 4): a sampling sketch that retained nothing is still not empty
+                        {
+                            let entries: Vec<u64> = c.iter().collect();
+                            let sh = refhash::seed_hash(9001);
+                            let images = [
+                                ("spec v1", crate::spec::theta::encode_v1(&entries, c.theta64())),
+                                ("spec v2", crate::spec::theta::encode_v2(&entries, c.theta64(), sh, c.is_empty())),
+                                ("spec v3", crate::spec::theta::encode_v3(&entries, c.theta64(), sh, true, c.is_empty(), false)),
+                            ];
+                            for (nm, bytes) in images {
+                                let d = CompactThetaSketch::deserialize(&bytes).map_err(|e| Fail { clause: "C01.roundtrip_rejected".into(), detail: format!("{job:?} n={n} {nm}: {e}") })?;
+                                let b = read_compact(&d);
+                                ensure!(
+                                    a.est == b.est && a.lb == b.lb && a.ub == b.ub,
+                                    "C01.foreign_image_changes_estimate",
+                                    "{job:?} n={n} {nm}: compact (est {}, lb {:?}, ub {:?}, {} entries, theta {}) but read from the image (est {}, lb {:?}, ub {:?})",
+                                    a.est, a.lb, a.ub, entries.len(), c.theta(), b.est, b.lb, b.ub
+                                );
+                            }
+                        }
                         let t = read_theta(&s);
                         ensure!(
                             (a.est - t.est).abs() <= 1e-9 * t.est.abs() && a.lb == t.lb && a.ub == t.ub,
